@@ -75,6 +75,8 @@ type Obligation struct {
 	Output  string
 	SMTFile string
 	vc      *VC
+	Pruned  bool
+	triedPruned bool
 }
 
 type modLoc struct {
@@ -118,6 +120,7 @@ type frame struct {
 	callOrd  map[string]int
 	labelOf  map[ast.Stmt]string
 	specPos  token.Pos
+	ghosts   map[string]binding
 }
 
 type binding struct {
@@ -154,6 +157,8 @@ type VC struct {
 	noSafety bool
 	CallsContract map[string]bool
 	UsedLemmas map[string]bool
+	nbound int
+	factKeys map[int][]string
 }
 
 func NewVC(p *Prog, name string, mode string) *VC {
@@ -227,6 +232,20 @@ func (vc *VC) assumeGlobal(fact Term) {
 	if fact.S == "true" {
 		return
 	}
+	vc.facts = append(vc.facts, fact.S)
+}
+
+// assumeAxiom records a definitional axiom / auto lemma keyed by the function symbols that make
+// it relevant. Such facts are only included in a query when one of their keys occurs in the goal
+// (transitively through other included axioms); omitting hypotheses is always sound.
+func (vc *VC) assumeAxiom(fact Term, keys ...string) {
+	if fact.S == "true" {
+		return
+	}
+	if vc.factKeys == nil {
+		vc.factKeys = map[int][]string{}
+	}
+	vc.factKeys[len(vc.facts)] = keys
 	vc.facts = append(vc.facts, fact.S)
 }
 
